@@ -102,15 +102,18 @@ def draw_grad_mode(rng: random.Random, d: dict):
     """Structure of the gradients (an input, not part of the configuration): dense, one-hot in the first steps, striped."""
     d.pop("grad_mode", None)
     d.pop("sparse_steps", None)
+    d.pop("stripe_largest", None)
     r = rng.random()
     if r < 0.15:
         d["grad_mode"], d["sparse_steps"] = "sparse_first", rng.choice([1, 2, 3])
-    elif r < 0.3:
-        d["grad_mode"], d["sparse_steps"] = "striped", rng.choice([2, 4, 100])
+    elif r < 0.35:
+        d["grad_mode"], d["sparse_steps"] = "striped", rng.choice([2, 4, 100, 100])
+        d["stripe_largest"] = rng.random() < 0.5          # stripes along the largest mode (else a mode chosen by the seed)
 
 
-SCALE_PATTERNS = [[1e-5], [1e-5], [1e3], [1.0, 1.0, 1e-10], [1.0, 1e-10, 1.0, 1e-10], [1.0, 1.0, 1.0, 1e-10, 1e-12], [1.0, 1e-10], [1e-3, 1.0],
-                  [1.0, 1.0, 1.0, 1e4]]
+# whole runs at one magnitude, or single steps far BELOW the accumulated history.  (A step far ABOVE the history makes the comparison
+# itself ill-conditioned: the error of the stored root, amplified by the large gradient, is no longer small next to the update.)
+SCALE_PATTERNS = [[1e-5], [1e-5], [1e3], [1.0, 1.0, 1e-10], [1.0, 1e-10, 1.0, 1e-10], [1.0, 1.0, 1.0, 1e-10, 1e-12], [1.0, 1e-10]]
 
 
 def draw_scales(rng: random.Random, d: dict, p: float = 0.35):
